@@ -479,6 +479,15 @@ func (e *exec) pollErr() {
 	if e.ad.errCh == nil || e.tr.ErrClosed {
 		return
 	}
+	if e.s.ErrLate && e.s.Ver == 2 && !e.s.Simple {
+		// this consumer looks at Err() only once Output() has been closed
+		e.mu.Lock()
+		over := e.terminated
+		e.mu.Unlock()
+		if !over {
+			return
+		}
+	}
 	for {
 		select {
 		case err, ok := <-e.ad.errCh():
